@@ -1,6 +1,6 @@
 """Registers the workload generators of the property specific checks with `workloads`, so that the
 schedule differential (C05) and the configuration differential (C14) run them as well."""
-from . import c09, c13, nets, workloads
+from . import c04, c09, c10, c13, c17, c19, nets, workloads
 
 _done = []
 
@@ -25,6 +25,38 @@ def _nets(rng):
     return workloads.fibers(rng)
 
 
+def _frames(rng):
+    """An exception-frame program of C04 with one injected fault (or none)."""
+    funs = c04.generate(rng)
+    _, dynamic = c04.model(funs, 0, "Error")
+    target = rng.randint(0, min(dynamic, 40))
+    kind = rng.choice([k for k in c04.KINDS if k != "IoError"])
+    return {"name": "frames", "main": workloads.MAIN,
+            "files": {workloads.MAIN: c04.render(funs, target, kind), c04.DATA: "data"}}
+
+
+def _aliases(rng):
+    source, _, _ = c10.generate(rng, rng.random() < 0.5)
+    return {"name": "aliases", "main": workloads.MAIN, "files": {workloads.MAIN: source}}
+
+
+def _modules(rng):
+    for _ in range(10):
+        files, _, fail, faults, _ = c17.generate(rng)
+        if not faults:
+            return {"name": "modules", "main": workloads.MAIN, "files": files}
+    return workloads.churn(rng)
+
+
+def _session(rng):
+    entries, files = c19.generate(rng)
+    files = dict(files)
+    # (not executed in repl mode; kept so that samples and signatures have a text to show)
+    files[workloads.MAIN] = "\n".join(text for text, _ in entries) + "\n"
+    return {"name": "session", "main": workloads.MAIN, "files": files, "mode": "repl",
+            "stdin": [text + "\n" for text, _ in entries]}
+
+
 def register_all():
     if _done:
         return
@@ -32,3 +64,7 @@ def register_all():
     workloads.register("classes", _classes, 3)
     workloads.register("strings", _strings, 3)
     workloads.register("nets", _nets, 2)
+    workloads.register("frames", _frames, 3)
+    workloads.register("aliases", _aliases, 2)
+    workloads.register("modules", _modules, 2)
+    workloads.register("session", _session, 2)
